@@ -241,6 +241,7 @@ GEN_LOOP = {   # constants of spec/GEN_IsoGrowth_<x>.cfg  ->  a fit_image reques
     'b': dict(sma0=2.0, step=0.5, minsma=0.0, maxsma=None),       # no maxsma, KMin = 4, central isophote
     'c': dict(sma0=2.0, step=0.5, minsma=0.0, maxsma=6.0),        # HasMax, KMax = 3, KMin = 4, central isophote
     'd': dict(sma0=10.0, step=0.5, minsma=3.5, maxsma=45.0, maxrit=18.0),      # as 'a' with non-iterative fits from exponent 2 on (sma 22.5 > maxrit)
+    'e': dict(sma0=4.0, step=0.5, minsma=0.0, maxsma=30.0, maxrit=8.0),        # HasMax, KMax = 5, KMin = 6, central isophote, non-iterative from exponent 2 on (sma 9 > maxrit)
 }
 _LOOP_IMG = None
 
@@ -375,7 +376,7 @@ def run(ctx):
             raise core.Machinery(f'vacuity guard: TLC accepted the pinned growth loop ({what})')
     # spec -> code: every complete behaviour of the machine through the real control flow (stubbed fit_isophote)
     beh = []
-    for tag in ('a', 'b', 'c', 'd'):
+    for tag in ('a', 'b', 'c', 'd', 'e'):
         g = ctx.tlc('IsoGrowthGen', f'GEN_IsoGrowth_{tag}.cfg', part=f'GEN:IsoGrowth/{tag}', workers=1)
         for r in g.records:
             if r.get('_tag') == 'GEN':
